@@ -46,7 +46,7 @@ CONSTANTS
   IdleAdvances = {idle}
   Outcomes <- {outcomes}
   Advances <- {advances}
-INVARIANT Emit
+INVARIANT {emit}
 CHECK_DEADLOCK FALSE
 """
 
@@ -70,7 +70,7 @@ CHECK_DEADLOCK FALSE
 
 
 def gen_cfg(ctx, name, **kw):
-    d = dict(next="GNext", configs="GCfgSwitches", t0=1600, maxres=1, maxq=3, maxback=1, requests="GReqRel", idle="{0}",
+    d = dict(next="GNext", emit="Emit", configs="GCfgSwitches", t0=1600, maxres=1, maxq=3, maxback=1, requests="GReqRel", idle="{0}",
              outcomes="GOutSmall", advances="GAdvSmall")
     d.update(kw)
     return ctx.cfg(name, GEN_CFG.format(**d))
@@ -247,6 +247,11 @@ def submit_generators(ctx, quick, gen):
     #     transports (a reply with TC raises Truncated only if the glue asked UDP to): all outcome sequences <= 3
     gen("Gen_Resolution", gen_cfg(ctx, "g9.cfg", configs="GCfgGlue", requests="GReqAbs", outcomes="GOutGlue",
                                   advances="GAdvZero", maxq=3 if quick else 4))
+    # G10: the address lookup resolve_name(name, AF_UNSPEC) = AAAA then A for the candidate the first lookup settled
+    #      on: relative name, 1-2 search domains, search flag / use_search_by_default, every outcome per query
+    gen("Gen_Resolution", gen_cfg(ctx, "g10.cfg", next="GNextName", emit="EmitName", configs="GCfgNameQ" if quick else "GCfgName",
+                                  requests="GReqNameQ" if quick else "GReqName", outcomes="GOutName",
+                                  advances="GAdvZero" if quick else "GAdvSmall", maxres=2, maxq=3))
     # G4: one and three servers, every way of failing
     gen("Gen_Resolution", gen_cfg(ctx, "g4.cfg", configs="GCfgThree" if quick else "GCfgOneThree",
                                                       requests="GReqAbs", outcomes="GOutFail10" if quick else "GOutFailing",
